@@ -172,7 +172,9 @@ where
                     if let Some(deadline) = deadline {
                         // Wait only for the rest of the timeout
                         let left = deadline.saturating_duration_since(Instant::now());
-                        if left.is_zero() {
+                        // Socket timeout has microsecond granularity,
+                        // and zero means "wait forever"
+                        if left < Duration::from_micros(1) {
                             return Err(SnmpError::WouldBlock.into());
                         }
                         self.get_io()
